@@ -1,6 +1,7 @@
 SPECIFICATION Spec
 CONSTANTS K = 2
           KO = 1
+          SK = 2
           W = 1
           Ext = FALSE
           ValSet = "plain"
